@@ -20,7 +20,7 @@ def mkCD (T : Tables) (ca : Atoms) : CompoundData :=
     nAtomsAll := ca.foldl (fun acc e => acc + e.2) 0, molarMass := sum }
 
 theorem compoundParser_result_ok (v : Variant) (T : Tables) (l : Locale) (s : List Char) {ca : Atoms} {k : Nat}
-    (h : parseSimple T (s.length + 1) s = .ok (ca, k))
+    (h : parseSimple v T (s.length + 1) s = .ok (ca, k))
     (hw : v.weightFix = false ∨ ∀ e ∈ ca, atomicWeight T e.1 ≠ 0) :
     (compoundParser v T l (some s)).result = .ok (mkCD T ca) := by
   have hc : (v.weightFix && ca.any (fun e => decide (atomicWeight T e.1 = 0))) = false := by
@@ -33,7 +33,7 @@ theorem compoundParser_result_ok (v : Variant) (T : Tables) (l : Locale) (s : Li
   rfl
 
 theorem compoundParser_result_weightless (v : Variant) (T : Tables) (l : Locale) (s : List Char) {ca : Atoms} {k : Nat}
-    (h : parseSimple T (s.length + 1) s = .ok (ca, k))
+    (h : parseSimple v T (s.length + 1) s = .ok (ca, k))
     (hv : v.weightFix = true) (hw : ∃ e ∈ ca, atomicWeight T e.1 = 0) :
     (compoundParser v T l (some s)).result = .error .zRange := by
   have hc : (v.weightFix && ca.any (fun e => decide (atomicWeight T e.1 = 0))) = true := by
@@ -44,7 +44,7 @@ theorem compoundParser_result_weightless (v : Variant) (T : Tables) (l : Locale)
   rfl
 
 theorem compoundParser_result_err (v : Variant) (T : Tables) (l : Locale) (s : List Char) {f : Fail}
-    (h : parseSimple T (s.length + 1) s = .error f) : (compoundParser v T l (some s)).result = .error f.err := by
+    (h : parseSimple v T (s.length + 1) s = .error f) : (compoundParser v T l (some s)).result = .error f.err := by
   simp only [compoundParser, h]
 
 /-- `LC_NUMERIC` after a call with a non-NULL string -/
